@@ -1,4 +1,4 @@
-\* C08 liveness (quick): Wake under weak fairness of the waiter's re-check; <= 2 additions
+\* C08 liveness (quick): Wake under weak fairness of the waiter's re-check; <= 2 additions, all at the same clock value
 SPECIFICATION SpecLive
 CONSTANTS
   Users <- MCUsers0
@@ -8,7 +8,7 @@ CONSTANTS
   Data = {"d"}
   Clients <- MCClients
   CfgChoices <- MCCfgLive
-  ClockValues = {1, 3}
+  ClockValues = {1}
   MaxAdds = 2
   Bump = TRUE
   BroadcastRepeat = TRUE
